@@ -108,7 +108,7 @@ def token_param_writes(P, u, fname, opaque=('tokenize', 'new_file', 'quote_strin
         return NotImplemented
     def interp(loop_limit):
         return PInterp(P, u, {'opaque': [c for c in opaque if c != fname], 'cut': {'format': None}, 'track_stores': True, 'loop_limit': loop_limit, 'lazy_field': hook,
-                              'models': {'calloc': lambda it_, ctx, n, args: Sym(ctx.fresh('buf'), 'char *'), 'strncpy': lambda it_, ctx, n, args: args[0]}})
+                              'models': {'calloc': lambda it_, ctx, n, args: Sym(ctx.fresh('buf'), 'char *'), 'strncpy': lambda it_, ctx, n, args: args[0], 'memcpy': lambda it_, ctx, n, args: args[0]}})
 
     def mk(ctx):
         a = []
